@@ -160,6 +160,14 @@ func (g *c05Gen) stmt(ind string, depth int, ctrs []string, inLoop bool, sinceLo
 		g.nLoop++
 		c := fmt.Sprintf("w%d", g.nLoop)
 		bound := 1 + g.pick("bound", 3)
+		if g.fnDecls && g.pick("unbracedWhile", 3) == 0 {
+			// a loop whose body is one statement without braces (the counter moves in the condition)
+			g.b.WriteString(ind + bn.KwVar + " " + c + " = 0;\n")
+			g.b.WriteString(ind + bn.KwWhile + " ((" + c + " = " + c + " + 1) <= " + fmt.Sprint(bound) + ")\n")
+			g.stmt(ind+"  ", depth-1, append(append([]string{}, ctrs...), c), true, 0, inLoop || sinceLoop > 0 || len(ctrs) > 0, false)
+			g.b.WriteString(ind + bn.KwPrint + " [" + strings.Join(append(append([]string{}, ctrs...), c), ", ") + "];\n")
+			return
+		}
 		g.b.WriteString(ind + bn.KwVar + " " + c + " = 0;\n")
 		g.b.WriteString(ind + bn.KwWhile + " (" + c + " < " + fmt.Sprint(bound) + ") {\n")
 		g.b.WriteString(ind + "  " + c + " = " + c + " + 1;\n")
@@ -386,6 +394,15 @@ func TestC05(t *testing.T) {
 			}
 			// a loop that ended must not swallow a later stray signal, and a signal must not leak out of a function
 			extra := []string{
+				// ফেরত of every kind inside loops: at the top level a stray signal, in a function the end of the call —
+				// the loop runs no further round either way
+				bn.KwVar + " n = 0;\n" + bn.KwWhile + " (n < 3) { n = n + 1; " + bn.KwPrint + " n; " + bn.KwIf + " (n == 2) { " + bn.KwReturn + "; } }\n",
+				bn.KwVar + " n = 0;\n" + bn.KwWhile + " (n < 3) { n = n + 1; " + bn.KwPrint + " n; " + bn.KwIf + " (n == 2) " + bn.KwReturn + " nil; }\n",
+				bn.KwFor + " (" + bn.KwVar + " i = 0; i < 3; i = i + 1) { " + bn.KwPrint + " i; " + bn.KwReturn + "; }\n",
+				bn.KwFun + " w(k) { " + bn.KwVar + " n = 0; " + bn.KwWhile + " (n < 5) { n = n + 1; " + bn.KwPrint + " n; " + bn.KwIf + " (n == k) { " + bn.KwReturn + "; } } " + bn.KwPrint + " \"ran out\"; }\nw(2);\n" + bn.KwPrint + " w(9);\n",
+				bn.KwFun + " w(k) { " + bn.KwVar + " n = 0; " + bn.KwWhile + " (" + bn.KwTrue + ") { n = n + 1; " + bn.KwIf + " (n == k) " + bn.KwReturn + " nil; " + bn.KwIf + " (n > 20) " + bn.KwBreak + "; } " + bn.KwPrint + " \"left by break\"; }\n" + bn.KwPrint + " w(3);\n",
+				bn.KwFun + " w(k) { " + bn.KwVar + " n = 0; " + bn.KwWhile + " ((n = n + 1) < 6) " + bn.KwIf + " (n == k) " + bn.KwReturn + " n; " + bn.KwReturn + " \"ran out\"; }\n" + bn.KwPrint + " w(2);\n" + bn.KwPrint + " w(8);\n",
+				bn.KwFun + " w(k) { " + bn.KwVar + " n = 0; " + bn.KwWhile + " ((n = n + 1) < 6) " + bn.KwWhile + " (n == k) { " + bn.KwReturn + " n * 10; } " + bn.KwReturn + " \"ran out\"; }\n" + bn.KwPrint + " w(3);\n",
 				bn.KwWhile + " (0) { }\n" + bn.KwBreak + ";\n",
 				bn.KwFor + " (;0;) { }\n" + bn.KwContinue + ";\n",
 				bn.KwFun + " f() { " + bn.KwReturn + " 1; }\nf();\n" + bn.KwPrint + " \"ok\";\n" + bn.KwReturn + ";\n",
